@@ -87,6 +87,29 @@ impl C11 {
     }
 }
 
+impl C11 {
+    /// write-once registry over the whole id universe
+    fn registry(&self, ctx: &Ctx, m: &Model, out: &mut StepOut, context: &str) {
+        let iw = &ctx.iw;
+        let w = &iw.w;
+        let env = &w.env;
+        for id in &ctx.all_ids {
+            let qa = w.query(&iw.its, "token_address", &[to_val(env, &sbytes(id))]);
+            let qt = w.query(&iw.its, "token_manager_type", &[to_val(env, &sbytes(id))]);
+            match m.reg.get(id) {
+                None => {
+                    out.expect(qa.is_none() && qt.is_none(), "probe.unregistered-id-resolves", || format!("{}id {}: {:?} {:?}", context, hex(&id[..4]), qa, qt));
+                }
+                Some(rec) => {
+                    out.expect(qa == Some(ScVal::Address(rec.address.clone())), "probe.token_address", || format!("{}id {}: {:?} vs {:?}", context, hex(&id[..4]), qa, rec.address));
+                    let want_t = if rec.native { 0u32 } else { 2 };
+                    out.expect(qt == Some(su32(want_t)), "probe.token_manager_type", || format!("{}id {}: {:?} vs {}", context, hex(&id[..4]), qt, want_t));
+                }
+            }
+        }
+    }
+}
+
 impl Scenario for C11 {
     type Ctx = Ctx;
     type M = Model;
@@ -323,20 +346,22 @@ impl Scenario for C11 {
         let iw = &ctx.iw;
         let w = &iw.w;
         let env = &w.env;
-        // write-once registry over the whole id universe
-        for id in &ctx.all_ids {
-            let qa = w.query(&iw.its, "token_address", &[to_val(env, &sbytes(id))]);
-            let qt = w.query(&iw.its, "token_manager_type", &[to_val(env, &sbytes(id))]);
-            match m.reg.get(id) {
-                None => {
-                    out.expect(qa.is_none() && qt.is_none(), "probe.unregistered-id-resolves", || format!("id {}: {:?} {:?}", hex(&id[..4]), qa, qt));
-                }
-                Some(rec) => {
-                    out.expect(qa == Some(ScVal::Address(rec.address.clone())), "probe.token_address", || format!("id {}: {:?} vs {:?}", hex(&id[..4]), qa, rec.address));
-                    let want_t = if rec.native { 0u32 } else { 2 };
-                    out.expect(qt == Some(su32(want_t)), "probe.token_manager_type", || format!("id {}: {:?} vs {}", hex(&id[..4]), qt, want_t));
-                }
-            }
+        self.registry(ctx, m, out, "");
+        // announcing a token to another chain registers nothing here: after an outbound remote
+        // deployment (of either canonical asset, by a third party, and of U0's first token), accepted
+        // or not, the registry still reads as before
+        for which in 0..3usize {
+            let snap = w.snap();
+            let payer = if which < 2 { &iw.users[2] } else { &iw.users[0] };
+            iw.mint_asset(&iw.gas_token, payer, 10);
+            let gas = to_val(env, &token_scval(&iw.sc(&iw.gas_token), 1));
+            let call = if which < 2 {
+                w.call(&iw.its, "deploy_remote_canonical_token", &[iw.assets[which].to_val(), to_val(env, &sstr(X)), payer.to_val(), gas], Auth::By(&[payer.clone()]))
+            } else {
+                w.call(&iw.its, "deploy_remote_interchain_token", &[payer.to_val(), to_val(env, &sbytes(&SALTS[0])), to_val(env, &sstr(X)), gas], Auth::By(&[payer.clone()]))
+            };
+            self.registry(ctx, m, out, &format!("after an outbound remote deployment ({}, ok={}): ", if which < 2 { "canonical asset" } else { "U0's token" }, call.ok));
+            w.restore(&snap);
         }
         // every service-deployed token
         for (id, rec) in m.reg.iter().filter(|(_, r)| r.native) {
@@ -398,7 +423,7 @@ fn main() {
         let s = C11 { thorough, chains: if thorough { vec!["stellar", "stellar-testnet"] } else { vec!["stellar"] } };
         let mut o = Opts::new(tier, if thorough { 5 } else { 3 });
         o.min_depth = 2;
-        o.rule = "histories over deploy_interchain_token (deployer U0/U1, 2 salts, supply 5/0/-1, minter none / third party / the deployer / the service itself / the all-zero account, 5 metadata shapes incl. decimals 255, 256, empty name, empty symbol, multi-byte; authorised by the deployer or by someone else), register_canonical_token (2 assets, repeated, and the address of an already service-deployed token), remote deploy messages (short metadata / name and symbol longer than 32 bytes; fresh id, id of a local token, id of a canonical registration; minter none / valid / not XDR / XDR of a string); native seats behind all 8 ids. After every new state: token_address / token_manager_type of all 8 ids vs the write-once model; for every service-deployed token token_id, name, symbol, decimals, owner, deployer balance, is_minter for 5 universe addresses, and an approved inbound transfer executed on a snapshot; ids and addresses from independent keccak/XDR/sha256 derivations".into();
+        o.rule = "histories over deploy_interchain_token (deployer U0/U1, 2 salts, supply 5/0/-1, minter none / third party / the deployer / the service itself / the all-zero account, 5 metadata shapes incl. decimals 255, 256, empty name, empty symbol, multi-byte; authorised by the deployer or by someone else), register_canonical_token (2 assets, repeated, and the address of an already service-deployed token), remote deploy messages (short metadata / name and symbol longer than 32 bytes; fresh id, id of a local token, id of a canonical registration; minter none / valid / not XDR / XDR of a string); native seats behind all 8 ids. After every new state: token_address / token_manager_type of all 8 ids vs the write-once model, read again after each of three outbound remote deployments tried on a snapshot (either canonical asset by a third party, U0's first token); for every service-deployed token token_id, name, symbol, decimals, owner, deployer balance, is_minter for 5 universe addresses, and an approved inbound transfer executed on a snapshot; ids and addresses from independent keccak/XDR/sha256 derivations".into();
         (s, o)
     });
 }
